@@ -57,6 +57,31 @@ template <class B> static typename B::owning_data_t blank(size_t bound)
     else return O(typename B::configuration_t{}, blank<typename B::backend_t>(bound));
 }
 
+// ---- blank_c: like blank, but the layout layers get small consistent extents (1..bound per axis) and the array below them
+//      exactly the number of cells the library itself would allocate for those extents
+static bool g_keep_sizes = false;
+template <class B> static typename B::owning_data_t blank_c(size_t bound)
+{
+    constexpr kind k = kind_of<B>::value;
+    using O = typename B::owning_data_t;
+    if constexpr (k == K_STRIDED || k == K_MORTON || k == K_HILBERT) {
+        constexpr size_t N = B::contravariant_input_t::dimensions;
+        typename B::configuration_t s;
+        size_t prod = 1, mx = 0;
+        for (size_t i = 0; i < N; i++) { s[i] = vf_nondet_range(1, bound); prod *= s[i]; mx = s[i] > mx ? s[i] : mx; }
+        size_t cells = prod;
+        if constexpr (k != K_STRIDED) cells = covfie::utility::ipow(covfie::utility::round_pow2(mx), N);
+        g_keep_sizes = true;
+        return O(s, typename B::backend_t::owning_data_t(cells));
+    } else if constexpr (k == K_ARRAY) {
+        return O(vf_nondet_range(0, bound));
+    } else if constexpr (k == K_CONSTANT || k == K_IDENTITY || k == K_PROBE) {
+        return O();
+    } else {
+        return O(typename B::configuration_t{}, blank_c<typename B::backend_t>(bound));
+    }
+}
+
 // ---- sym
 template <class A> static void sym_arr(A & a)
 {
@@ -72,7 +97,7 @@ template <class O> static void sym(O & o)
         sym_arr(o.m_value);
     } else if constexpr (k == K_IDENTITY || k == K_PROBE) {
     } else if constexpr (k == K_STRIDED || k == K_MORTON || k == K_HILBERT) {
-        sym_arr(o.m_sizes);
+        if (!g_keep_sizes) sym_arr(o.m_sizes);
         sym(o.m_storage);
     } else if constexpr (k == K_CLAMP) {
         sym_arr(o.m_min); sym_arr(o.m_max); sym(o.m_backend);
